@@ -83,8 +83,67 @@ func checkAttachesAuthorisedBridge(r *Report) {
 	}
 }
 
+// checkAttachSites: a connection is attached (Set*Connection / Attach*) to a bridge that was looked up
+// in the shared table of live bridges only at the sites confirmed to be behind the attach authoriser
+// or the target-side admission; a new site that attaches to a looked-up bridge hands an existing
+// tunnel to whoever reached it.
+func checkAttachSites(r *Report) {
+	n, nTarget := 0, 0
+	for _, f := range r.P.FuncsIn(sessPkg) {
+		for _, u := range WithAnon(f) {
+			Instrs(u, func(in ssa.Instruction) {
+				ci, ok := in.(ssa.CallInstruction)
+				if !ok {
+					return
+				}
+				name := ""
+				if ci.Common().IsInvoke() {
+					name = ci.Common().Method.Name()
+				} else {
+					name = CalleeOf(ci).Name
+				}
+				if !(strings.HasPrefix(name, "Set") && strings.HasSuffix(name, "Connection")) && !strings.HasPrefix(name, "Attach") {
+					return
+				}
+				rv := Recv(ci)
+				if rv == nil {
+					return
+				}
+				if _, tn := recvTypeName(rv.Type()); tn != "TunnelBridge" && tn != "Bridge" {
+					return
+				}
+				o := originSummary(rv)
+				if !strings.Contains(o, "tunnelBridges") {
+					return // a bridge built here or handed in by the caller (handleExistingBridge: checked separately)
+				}
+				n++
+				of := Outermost(f)
+				fn := of.Name()
+				if of.Signature.Recv() != nil {
+					_, tn := recvTypeName(of.Signature.Recv().Type())
+					fn = tn + "." + of.Name()
+				}
+				if !strings.Contains(name, "Source") {
+					nTarget++
+					return // target-side attach: admitted by the validator of the request (R-C04-1 validator rules)
+				}
+				okSite := false
+				for _, ac := range Calls(Outermost(f), true, "SessionManager.authorizeTunnelAttach") {
+					if ac.Parent() == in.Parent() && ErrOK(in.Block(), ac) {
+						okSite = true // inlined form: authorised right here, on this path
+					}
+				}
+				msg := "attach " + name + " on a bridge looked up in the live-bridge table in place: the source side of an existing tunnel is replaced only through handleExistingBridge, on the bridge authorizeTunnelAttach was asked about"
+				r.Ob("R-C04-1", CallPos(ci), okSite, msg, fn, "attach-site:"+name)
+			})
+		}
+	}
+	r.Pass("R-C04-1", token.NoPos, fmt.Sprintf("%d source-side and %d target-side attach call(s) on bridges looked up in the live-bridge table; no source-side attach in place", n-nTarget, nTarget), "session", "attach-site:scan")
+}
+
 func runC04(r *Report) {
 	checkAttachesAuthorisedBridge(r)
+	checkAttachSites(r)
 	hto := r.need("R-C04-1", sessPkg, "SessionManager.handleTunnelOpen")
 	if hto == nil {
 		return
